@@ -18,3 +18,6 @@ pub assume_specification<T, F: FnOnce(T) -> bool> [Option::<T>::is_some_and] (o:
 pub assume_specification<T, U, F: FnOnce(T) -> U> [Option::<T>::map_or] (o: Option<T>, default: U, f: F) -> (r: U)
     requires o matches Some(t) ==> f.requires((t,))
     ensures o is None ==> r == default, o matches Some(t) ==> f.ensures((t,), r);
+pub assume_specification<'a, T: Clone> [Option::<&'a mut T>::cloned] (o: Option<&'a mut T>) -> (r: Option<T>)
+    ensures o is None ==> r is None,
+            o matches Some(x) ==> r is Some && cloned::<T>(*x, r->Some_0) && *final(x) == *x;
